@@ -239,6 +239,12 @@ def cases(tier: str) -> List[dict]:
             for expr in (fn, f"2.0 * {fn}", f"3.0 if {fn} else -1.0"):
                 for mode, bc in modes[:2]:
                     add(kind, [(fn, DOM["seq3"])], expr, mode, bc, "default", "alone")
+        # beyond the small scope: two and three variables of 300 aligned positions each
+        big = {"lo": 1.0, "hi": 4.0, "steps": 300}
+        add(kind, [("u", big), ("t", {"values": [float(i) for i in range(300)]})], "t + u", "by_position", False, "default", "alone")
+        add(kind, [("u", big), ("t", big), ("v", {"from_context": "r300"})], "t * u + v", "by_position", False, "default", "then_sum",
+            lambda c: c["ctx"].__setitem__("r300", [0.5] * 300))
+        add(kind, [("u", big), ("t", {"values": [1.0, 2.0]})], "t + u", "by_position", True, "default", "alone")
         add(kind, [("max", DOM["seq2"]), ("min", DOM["seq3"])], "(max - min) / 2", "combinatorial", False, "default", "alone")
         add(kind, [("abs", DOM["seq2"]), ("t", DOM["seq3"])], "abs + float(t)", "combinatorial", False, "default", "alone")
         add(kind, [("int", DOM["seq3"]), ("t", DOM["seq3"])], "int * max(t, 2.0)", "by_position", False, "default", "alone")
